@@ -643,6 +643,8 @@ def unit_for(repo, tg):
     u.vec_types = tuple(tg.get("vec_types", ()))
     u.line_map = line_map      # synthesized methods (arms, list form): the line of the arm in the real source
     u.log_macros = tuple(tg.get("log_macros", ()))     # declared logging-only macros of the file
+    u.ascribe_let_structs = tuple(tg.get("ascribe_let_structs", ()))   # (b0507) structs whose `let x = S {..}` literals get a type ascription
+    u.rename_getters = bool(tg.get("rename_getters"))  # (b1012) methods named like a field of their struct get the suffix `_fn`
     u.reindent_closures = bool(tg.get("reindent_closures"))    # (b0809) see emit_m in rs2lean.py
     return u
 
